@@ -24,6 +24,7 @@ type rdCase struct {
 	Pos    string `json:"pos"`
 	VSeed  int64  `json:"vseed,omitempty"`
 	Pre    string `json:"pre,omitempty"` // Content-Type already on the response when the handler renders ("-" = none)
+	HeadFirst int `json:"headfirst,omitempty"` // 2: the same route is requested with HEAD first (same Flame, same render call), then with GET; 1: not
 	Sub    int    `json:"sub,omitempty"` // 1: the handler serves a sub-request (which renders too) through the same Flame first
 }
 
@@ -108,6 +109,9 @@ func rdReplay(raw json.RawMessage, idx int, tr *traceWriter) {
 	if c.Pre == "" {
 		c.Pre = []string{"-", "text/html; charset=utf-8", "application/x-custom"}[(c.VSeed/4)%3]
 	}
+	if c.HeadFirst == 0 {
+		c.HeadFirst = 1 + int((c.VSeed/16)%3)/2
+	}
 	tr.emit(map[string]interface{}{"case": idx, "ev": "reset", "input": c, "nt": true})
 	rng := rand.New(rand.NewSource(c.VSeed))
 	opt := flamego.RenderOptions{Charset: c.Cs, JSONIndent: c.Indent, XMLIndent: c.Ind2}
@@ -185,10 +189,18 @@ func rdReplay(raw json.RawMessage, idx int, tr *traceWriter) {
 	if c.Pos == "after" {
 		f.Use(flamego.Renderer(opt), pad)
 		f.Get("/sub", func(r flamego.Render) { r.PlainText(203, "sub-request") })
-		f.Get("/", pad, user)
+		f.Routes("/", "GET,HEAD", pad, user)
 	} else {
 		f.Use(user, flamego.Renderer(opt))
-		f.Get("/", pad)
+		f.Routes("/", "GET,HEAD", pad)
+	}
+	if c.HeadFirst == 2 {
+		// whatever a HEAD response leaves behind (buffers, encoders) must not show in the next response
+		func() {
+			defer func() { _ = recover() }()
+			hr, _ := http.NewRequest("HEAD", "/", nil)
+			f.ServeHTTP(&rdSpy{hdr: http.Header{}}, hr)
+		}()
 	}
 	spy := &rdSpy{hdr: http.Header{}}
 	req, _ := http.NewRequest("GET", "/", nil)
